@@ -112,22 +112,6 @@ def check_case(ctx, case):
     fullmask = samples.mask_of(full)
     tag = "route=%s rooted=%r use_w=%r weights=%r trees=%s" % (route, rooted_flag, case["use_w"], [rt.weight for rt in rts],
                                                               [rt.canon() for rt in rts])
-    # ---- clause 1: frequency of every split, nothing for unused splits ---------------------------
-    for k, f in freqs.items():
-        got = sd[masks[k]]
-        ctx.check(got == float(f), "split_frequency_exact", "C05.frequency",
-                  lambda: "split %s mask %s: got %r want %s (=%r); %s" % (sorted(map(sorted, k)) if not rooted else sorted(k), bin(masks[k]), got, f, float(f), tag))
-    allowed = set(masks.values()) | {0, fullmask}
-    extra = [m for m in sd.split_counts if m not in allowed]
-    ctx.check(not extra, "no_frequency_for_unused_splits", "C05.no_extra_splits", lambda: "keys %r; %s" % ([bin(m) for m in extra], tag))
-    probe = 0
-    for m in range(1, fullmask):
-        cand = m if rooted else samples.norm(m, fullmask)
-        if cand not in allowed:
-            probe = cand
-            break
-    if probe:
-        ctx.check(sd[probe] == 0, "unused_split_has_zero_frequency", "C05.unused_zero", lambda: "mask %s -> %r" % (bin(probe), sd[probe]))
     nt = dict((k, f) for k, f in freqs.items() if samples.is_nontrivial(k, n, rooted))
     thr = pick_threshold(case, nt.values())
     thr_eff = constants.GREATER_THAN_HALF if thr is None else thr
@@ -254,13 +238,28 @@ def check_case(ctx, case):
 
         return trt
 
-    # the two clauses run in a drawn order: summarising a target directly after trees were added (without an
-    # intervening consensus call) must not be served from caches filled earlier
+    # drawn order: summarising a target directly after trees were added - before any other query refreshes the
+    # caches - must not be served from summaries computed earlier
     if case.get("summaries_first"):
         trt = clause_summaries()
-        crt = clause_consensus()
-    else:
-        crt = clause_consensus()
+    # ---- clause 1: frequency of every split, nothing for unused splits ---------------------------
+    for k, f in freqs.items():
+        got = sd[masks[k]]
+        ctx.check(got == float(f), "split_frequency_exact", "C05.frequency",
+                  lambda: "split %s mask %s: got %r want %s (=%r); %s" % (sorted(map(sorted, k)) if not rooted else sorted(k), bin(masks[k]), got, f, float(f), tag))
+    allowed = set(masks.values()) | {0, fullmask}
+    extra = [m for m in sd.split_counts if m not in allowed]
+    ctx.check(not extra, "no_frequency_for_unused_splits", "C05.no_extra_splits", lambda: "keys %r; %s" % ([bin(m) for m in extra], tag))
+    probe = 0
+    for m in range(1, fullmask):
+        cand = m if rooted else samples.norm(m, fullmask)
+        if cand not in allowed:
+            probe = cand
+            break
+    if probe:
+        ctx.check(sd[probe] == 0, "unused_split_has_zero_frequency", "C05.unused_zero", lambda: "mask %s -> %r" % (bin(probe), sd[probe]))
+    crt = clause_consensus()
+    if not case.get("summaries_first"):
         trt = clause_summaries()
 
     # ---- clause 4: collapsing weakly supported edges -----------------------------------------------------------
@@ -367,6 +366,6 @@ SUBCHECKS = {"random": check_case, "ultrametric": check_ultra}
 def run(ctx):
     quick = ctx.tier == "quick"
     n = ctx.nshards
-    runner.run_given(ctx, "random", cases(8 if quick else 14, 8 if quick else 30), check_case, (1200 if quick else 20000) // n)
+    runner.run_given(ctx, "random", cases(8 if quick else 14, 8 if quick else 30), check_case, (4000 if quick else 24000) // n)
     runner.run_given(ctx, "ultrametric", cases(7 if quick else 10, 6 if quick else 16, ultrametric=True), check_ultra,
-                     (300 if quick else 5000) // n)
+                     (800 if quick else 6000) // n)
